@@ -269,3 +269,315 @@ def c19c(F, R):
                     R.ok(f"written|NodeWrapper.{x}")
                 else:
                     R.bad(f"written|NodeWrapper.{x}", f"NodeWrapper.{x} is not written by the derived serializer", adt["sp"])
+
+
+# ---------------------------------------------------------------------------- C19.d
+from .g1 import ty_range
+
+DIG = set("0123456789")
+
+
+class Unx(Exception):
+    pass
+
+
+def _writer_tokens(arm, binds):
+    """tokens written for one MemoryLocation variant: ('lit', s) | ('num', k, ty, plus, via) | ('mag', k, ty) | ('sign', k, neg, pos)"""
+    calls = format_calls_ex(arm["body"])
+    if len(calls) != 1:
+        raise Unx(f"{len(calls)} format! calls in the writer arm")
+    toks = []
+    for pc in calls[0]:
+        if pc[0] == "lit":
+            toks.append(("lit", pc[1]))
+            continue
+        a = pc[1]
+        e = peel(a["e"])
+        if a["how"] != "display":
+            raise Unx(f"placeholder rendered with {a['how']}")
+        plus = bool(a["flags"] & SIGN_PLUS)
+        if e.get("k") == "Path" and e.get("res") in binds:
+            toks.append(("num", binds.index(e["res"]), a["ty"], plus, None))
+        elif e.get("k") == "MethodCall" and not e["args"] and peel(e["recv"]).get("k") == "Path" and peel(e["recv"]).get("res") in binds:
+            k = binds.index(peel(e["recv"])["res"])
+            if e["name"] == "unsigned_abs":
+                toks.append(("mag", k, e.get("ty")))
+            else:
+                toks.append(("num", k, e.get("ty"), plus, callee_of(e)))
+        elif e.get("k") == "If" and e.get("else") is not None:
+            c = peel(e["cond"])
+            while c.get("k") in ("DropTemps", "Use"):
+                c = peel(c["e"])
+            neg, pos = lit_value(_tail(e["then"])), lit_value(_tail(e["else"]))
+            lhs = peel(c.get("a") or {})
+            if c.get("k") == "Binary" and c["op"] == "Lt" and lhs.get("k") == "Path" and lhs.get("res") in binds and _zero(c["b"]) and isinstance(neg, str) and isinstance(pos, str):
+                toks.append(("sign", binds.index(lhs["res"]), neg, pos))
+            else:
+                raise Unx(f"conditional placeholder `{ekey(e)[:60]}`")
+        else:
+            raise Unx(f"placeholder `{ekey(e)[:60]}`")
+    return toks
+
+
+def _tail(b):
+    b = peel(b)
+    while b.get("k") == "Block" and not b.get("stmts") and b.get("expr") is not None:
+        b = peel(b["expr"])
+    return b
+
+
+def _zero(e):
+    e = peel(e)
+    while e.get("k") in ("AddrOf", "Unary"):
+        e = peel(e.get("e") or e.get("a"))
+    return lit_value(e) == 0
+
+
+def _alphabet(t):
+    if t[0] == "lit":
+        return set(t[1])
+    if t[0] == "num":
+        a = set(DIG)
+        r = ty_range(t[2])
+        if r and r[0] < 0:
+            a.add("-")
+        if t[3]:
+            a.add("+")
+        return a
+    if t[0] == "mag":
+        return set(DIG)
+    if t[0] == "sign":
+        return set(t[2]) | set(t[3])
+    return set()
+
+
+def _unq(e):
+    """strip `expr?` / `.map_err(..)` / `.unwrap()` wrappers"""
+    e = peel(e)
+    while True:
+        if e.get("k") == "Match" and e.get("src") == "TryDesugar":
+            e = peel(peel(e["scrut"])["args"][0])
+        elif e.get("k") == "MethodCall" and e["name"] in ("map_err", "unwrap", "expect"):
+            e = peel(e["recv"])
+        else:
+            return e
+
+
+def _reader_check(then, toks, variant, nfields, field_tys):
+    """interpret the reader branch over the writer's token sequence; returns list of problems"""
+    probs = []
+    env = {}
+
+    def parse_piece(piece, T, where):
+        tr = ty_range(T)
+        if tr is None:
+            raise Unx(f"parse::<{T}>")
+        kinds = [t[0] for t in piece]
+        if kinds == ["num"]:
+            _, k, ty, plus, via = piece[0]
+            r = ty_range(ty)
+            if r[0] < 0 and tr[0] >= 0:
+                probs.append((f"field{k}|signedness", f"field {k} is written as {ty} (can be negative) but read with parse::<{T}>", where))
+            elif r[0] < tr[0] or r[1] > tr[1]:
+                probs.append((f"field{k}|range", f"field {k} is written as {ty} but read with parse::<{T}>: values outside {tr} cannot be reloaded", where))
+            return ("val", k, via)
+        if kinds == ["mag"]:
+            _, k, ty = piece[0]
+            fr = ty_range(field_tys[k])
+            top = max(abs(fr[0]), abs(fr[1]))
+            if top > tr[1]:
+                probs.append((f"field{k}|magnitude-range", f"the magnitude of field {k} ({field_tys[k]}: up to {top}) is read with parse::<{T}> (max {tr[1]}): {variant}({fr[0]}) is written as a dump that cannot be loaded", where))
+            return ("abs", k)
+        if kinds == ["sign", "mag"] and piece[0][1] == piece[1][1] and tr[0] < 0 and piece[0][2] == "-" and piece[0][3] in ("", "+"):
+            return ("val", piece[0][1], None)
+        raise Unx(f"a piece made of {kinds} is parsed as {T}")
+
+    def str_tokens(e):
+        e = _unq(e)
+        if e.get("k") == "Path" and e.get("res") in env and env[e["res"]][0] == "str":
+            return env[e["res"]][1]
+        if e.get("k") == "MethodCall" and e["name"] == "next" and peel(e["recv"]).get("k") == "Path" and env.get(peel(e["recv"])["res"], ("",))[0] == "split":
+            st = env[peel(e["recv"])["res"]]
+            pieces, cur = st[1], st[2]
+            if cur[0] >= len(pieces):
+                probs.append(("split|too-many-next", f"the reader takes piece #{cur[0] + 1} of a text that the writer builds from {len(pieces)} piece(s)", loc(e)))
+                raise Unx("piece index")
+            cur[0] += 1
+            return pieces[cur[0] - 1]
+        raise Unx(f"string source `{ekey(e)[:60]}`")
+
+    def ev_let(st):
+        init = _unq(st["init"])
+        pat = st["pat"]
+        if init.get("k") == "MethodCall" and init["name"] == "split_at" and lit_value(init["args"][0]) == 1 and pat.get("k") == "PTuple":
+            src = str_tokens(init["recv"])
+            names = [b["name"] for b in walk(pat) if b.get("k") == "PBinding"]
+            head = src[0] if src else None
+            if head and head[0] == "sign" and len(head[2]) == 1 and len(head[3]) == 1:
+                env[names[0]] = ("signval", head[1], head[2], head[3])
+                env[names[1]] = ("str", src[1:])
+            elif head and head[0] == "lit" and len(head[1]) >= 1:
+                env[names[0]] = ("litval", head[1][0])
+                env[names[1]] = ("str", ([("lit", head[1][1:])] if head[1][1:] else []) + src[1:])
+            else:
+                probs.append(("split_at|first-char", f"the reader takes the first character as a sign, but the writer starts the text with {head}: a digit can be taken for the sign", loc(init)))
+                raise Unx("split_at")
+            return
+        if init.get("k") == "MethodCall" and init["name"] == "split" and pat.get("k") == "PBinding":
+            src = str_tokens(init["recv"])
+            a = peel(init["args"][0])
+            sep = lit_value(a)
+            if isinstance(sep, str) and len(sep) >= 1:
+                seps = {sep} if len(sep) > 1 else set(sep)
+            elif a.get("k") == "Array":
+                seps = {lit_value(x) for x in a["elems"]}
+            else:
+                raise Unx(f"split pattern `{ekey(a)}`")
+            sepchars = set("".join(seps))
+            pieces = [[]]
+            for t in src:
+                if t[0] == "lit":
+                    txt = t[1]
+                    if all(ch in sepchars for ch in txt) and len(seps) and all(len(x) == 1 for x in seps):
+                        for _ in txt:
+                            pieces.append([])
+                    elif txt in seps:
+                        pieces.append([])
+                    elif not (set(txt) & sepchars):
+                        pieces[-1].append(t)
+                    else:
+                        raise Unx(f"literal {txt!r} partly made of separators {sorted(seps)}")
+                else:
+                    hit = _alphabet(t) & sepchars
+                    if hit:
+                        probs.append((f"split|separator-in-field{t[1]}", f"the reader splits at {sorted(seps)} but field {t[1]} is written with characters {sorted(hit)} (its sign): the sign is consumed as a separator, so e.g. -4 reloads as 4 / as another piece", loc(init)))
+                    pieces[-1].append(t)
+            env[pat["name"]] = ("split", pieces, [0])
+            return
+        if pat.get("k") == "PBinding":
+            env[pat["name"]] = ev_expr(st["init"])
+            return
+        raise Unx(f"reader statement `{ekey(init)[:70]}`")
+
+    def ev_expr(e):
+        e = _unq(e)
+        k = e.get("k")
+        if k == "Path" and e.get("res") in env:
+            return env[e["res"]]
+        if k == "MethodCall" and e["name"] == "parse":
+            T = (e.get("gargs") or ["?"])[-1]
+            return parse_piece(str_tokens(e["recv"]), T, loc(e))
+        if k == "Call" and len(e["args"]) == 1 and short(callee_of(e) or declared_callee(e) or "") in ("new", "try_from", "from"):
+            return ev_expr(e["args"][0])
+        if k == "MethodCall" and not e["args"] and e["name"] in ("into", "try_into"):
+            return ev_expr(e["recv"])
+        if k == "Cast":
+            v = ev_expr(e["e"])
+            tr = ty_range(e.get("ty"))
+            if v[0] == "val" and tr:
+                fr = ty_range(field_tys[v[1]])
+                if fr[0] < tr[0] or fr[1] > tr[1]:
+                    probs.append((f"field{v[1]}|cast", f"field {v[1]} ({field_tys[v[1]]}) is narrowed with `as {e.get('ty')}` while loading", loc(e)))
+            return v
+        if k == "Block" and not e.get("stmts") and e.get("expr") is not None:
+            return ev_expr(e["expr"])
+        if k == "If" and e.get("else") is not None:
+            c = peel(e["cond"])
+            while c.get("k") in ("DropTemps", "Use"):
+                c = peel(c["e"])
+            th, el = _tail(e["then"]), _tail(e["else"])
+            if c.get("k") == "Binary" and c["op"] == "Eq":
+                sv = env.get(peel(c["a"]).get("res"))
+                lit = lit_value(c["b"])
+                neg = th.get("k") == "Unary" and th.get("op") == "Neg" and ev_expr(th["a"])
+                pos = ev_expr(el)
+                if sv and sv[0] == "signval" and lit == sv[2] and neg and neg[0] == "abs" and pos == neg and neg[1] == sv[1]:
+                    return ("val", sv[1], None)
+        raise Unx(f"reader expression `{ekey(e)[:70]}`")
+
+    blk = peel(then)
+    env["__rest__"] = ("str", toks)
+    return probs, env, blk, ev_let, ev_expr
+
+
+@rule("C19", "C19.d.memory-location-grammar", floor=3)
+def c19d(F, R):
+    """the hand-written MemoryLocation text format round-trips: interpreting the reader's split/parse steps over the writer's format pieces returns every field, with its sign and full range"""
+    sp = F.method(MEMLOC, "serialize", trait_ref=r"ser::Serialize")
+    sm = self_match(F, sp, MEMLOC)
+    vp = None
+    for i in F.impls:
+        if (i.get("trait") or "").endswith("de::Visitor") and "MemoryLocationVisitor" in i["self_ty"]:
+            for it in i["items"]:
+                if it["name"] == "visit_str":
+                    vp = it["path"]
+    if vp is None:
+        raise Anchor("MemoryLocationVisitor::visit_str not found")
+    rf = F.fn(vp)
+    branches = {}
+    for n in walk(rf["hir"]["value"]):
+        if n.get("k") == "If":
+            c = n["cond"]
+            while c.get("k") in ("DropTemps", "Use"):
+                c = c["e"]
+            if c.get("k") == "LetExpr":
+                init = peel(c["init"])
+                if init.get("k") == "MethodCall" and init["name"] == "strip_prefix":
+                    b = [x["name"] for x in walk(c["pat"]) if x.get("k") == "PBinding"]
+                    branches[lit_value(init["args"][0])] = (b[0], n["then"])
+    adt = F.adt(MEMLOC)
+    for v, arm in arm_table(sm):
+        if v == "_":
+            continue
+        vd = [x for x in adt["variants"] if x["name"] == v][0]
+        field_tys = [fl["ty"] for fl in vd["fields"]]
+        binds = [b["name"] for b in walk(arm["pat"]) if b.get("k") == "PBinding"]
+        probs = []
+        try:
+            toks = _writer_tokens(arm, binds)
+            if not toks or toks[0][0] != "lit":
+                raise Unx("writer text does not start with a literal prefix")
+            pref = [p_ for p_ in branches if toks[0][1].startswith(p_)]
+            pref = [p_ for p_ in pref if p_ == max(pref, key=len)]
+            if not pref:
+                raise Unx(f"no reader branch for {toks[0][1]!r}")
+            bname, then = branches[pref[0]]
+            rest = toks[0][1][len(pref[0]):]
+            rtoks = ([("lit", rest)] if rest else []) + toks[1:]
+            # CsrImm-typed fields are written through .value() (u32)
+            ftys = []
+            for k, t in enumerate(field_tys):
+                ftys.append("u32" if t.endswith("CsrImm") else t)
+            probs, env, blk, ev_let, ev_expr = _reader_check(then, rtoks, v, len(field_tys), ftys)
+            env[bname] = ("str", rtoks)
+            for st in blk.get("stmts") or []:
+                if st.get("k") == "Let":
+                    ev_let(st)
+                else:
+                    raise Unx(f"reader statement kind {st.get('k')}")
+            res = _unq(blk["expr"])
+            if not (res.get("k") == "Call" and short(callee_of(res) or "") == "Ok"):
+                raise Unx("reader branch does not end in Ok(..)")
+            ctor = peel(res["args"][0])
+            if not (ctor.get("k") == "Call" and (callee_of(ctor) or "") == MEMLOC + "::" + v):
+                probs.append(("ctor", f"text written for {v} is read back as `{ekey(ctor)[:60]}`", loc(ctor)))
+            else:
+                for j, a in enumerate(ctor["args"]):
+                    got = ev_expr(a)
+                    if not got or got[0] != "val":
+                        raise Unx(f"constructor argument {j}: `{ekey(a)[:60]}` evaluates to {got}")
+                    if got[1] != j:
+                        probs.append((f"field{j}|swapped", f"{v}: constructor field {j} is rebuilt from written field {got[1]}", loc(a)))
+                if len(ctor["args"]) != len(field_tys):
+                    raise Unx("constructor arity")
+            if probs:
+                for k, msg, where in probs:
+                    R.bad(f"{v}|{k}", f"{v}: {msg}", where)
+            else:
+                R.ok(v, detail=f"{v}: writer {[t[0] if t[0] != 'lit' else t[1] for t in toks]} is inverted by the reader branch strip_prefix({pref[0]!r})")
+        except Unx as ex:
+            if probs:
+                for k, msg, where in probs:
+                    R.bad(f"{v}|{k}", f"{v}: {msg}", where)
+            else:
+                R.bad(f"{v}|unextractable", f"UNEXTRACTABLE: {v}: {ex}", loc(arm))
